@@ -214,6 +214,21 @@ class C01(Prop):
         for i in range(240 if quick else 5000):
             f = ("stockholm", "selex", "stockholm")[i % 3]
             emit("blk", G.block_anomaly(rng, f), f if rng.random() < 0.8 else ("pfam" if f == "stockholm" else f))
+        # 3c. allocation-growth boundaries (blocks of exactly 16/32 lines, 16/17/32/33 sequences, 16+/32+ comments and #=GF lines, many tags)
+        for i in range(120 if quick else 2500):
+            f = ("stockholm", "stockholm", "selex")[i % 3]
+            emit("alloc", G.alloc_boundary(rng, f), f if rng.random() < 0.85 else ("pfam" if f == "stockholm" else "auto"))
+        # 3d. alphabet guessing must stop early on whole lines once 500 / 5000 residues are seen
+        for f in ("afa", "a2m", "psiblast", "selex", "clustal", "stockholm", "phylip"):
+            for T, exact in ((500, True), (500, False), (5000, True)):
+                data = G.earlystop_file(rng, f, T, exact)
+                out.append({"name": "early-%s-%d-%d" % (f, T, len(out)), "ops": [self._op(data, f, "guess", "mem", 0), self._op(data, "auto", "guess", "mem", 0)]})
+        # 3e. one NUL / DEL / non-ASCII byte inside the residue text, every format, text and digital
+        for i in range(200 if quick else 3000):
+            f = ALL_FORMATS[i % len(ALL_FORMATS)]
+            data = G.odd_byte_in_residues(rng, f)
+            ops = [self._op(data, f, abc, "mem", 0) for abc in rng.sample(["text", "amino", "dna", "rna"], 2)]
+            out.append({"name": "odd%d" % len(out), "ops": ops})
         # 4. raw bytes
         for _ in range(n_raw):
             emit("raw", G.raw_bytes(rng), rng.choice(ALL_FORMATS + [None]))
@@ -286,6 +301,7 @@ class C01(Prop):
                     if r[0] == "more": continue
                     if r[0] not in OK_READ: return Failure("monitor", "read returned undocumented status %s (%s)" % (r[0], what), key=self._pending_key(kv, t, l))
                     if r[0] == "eformat" and (len(r) < 2 or r[1] != "msg"): return Failure("monitor", "format error without a message (%s)" % what)
+                    if r[0] == "eof" and len(r) > 1: return Failure("monitor", "end of input reported with a non-blank error message (%s)" % what)
                     if r[0] == "ok": nok += 1
                 elif t.startswith("chk=") and t != "chk=ok":
                     return Failure("monitor", "alignment returned with eslOK is not well formed: %s (%s)" % (t[4:], what), key=self._pending_key(kv, t, l))
